@@ -184,12 +184,18 @@ def run(ctx, out, tier):
                 out.viol("C20.ambient", "C20.ambient|%s|%s" % (b.id, nm.split("::")[-1]), ctx.where(b, t["span"]), "`%s` brings a clock / random / process-dependent value into the run" % nm)
             if callee_matches(t, r"^std::env::(var|var_os)$"):
                 v = util.const_val(ctx, b, t["args"][0]) if t["args"] else None
+                if v is None:
+                    # the name is an argument of a helper: the names are those of its (inlined) uses
+                    names = shared.env_names_of(ctx, b)
+                    if names and names <= set(ENV_ALLOWED):
+                        a += len(names)
+                        continue
                 if v in ENV_ALLOWED:
                     a += 1
                 else:
                     out.viol("C20.ambient", "C20.ambient|%s|env|%s" % (b.id, v), ctx.where(b, t["span"]), "environment variable %r is read; only the five documented BLOCKWATCH_* variables may influence a run" % (v,))
             if callee_matches(t, r"^std::env::current_dir$"):
-                if b.id == "bwbin::main":
+                if b.id.startswith("bwbin::"):
                     a += 1
                 else:
                     out.viol("C20.ambient", "C20.ambient|%s|current_dir" % b.id, ctx.where(b, t["span"]), "the current directory is used outside repository-root discovery: results would depend on where blockwatch is started")
